@@ -44,15 +44,36 @@ func setState(s *appsv1.StatefulSet, state string) {
 		s.Status.ReadyReplicas = 0
 	case "updating":
 		s.Status.UpdatedReplicas = 0
+	case "updating-ready=updated": // a re-created pod still starting: replicas 2, updated 1, ready 1
+		s.Status = appsv1.StatefulSetStatus{Replicas: 2, UpdatedReplicas: 1, ReadyReplicas: 1}
+	case "updating-all-ready":
+		s.Status = appsv1.StatefulSetStatus{Replicas: 2, UpdatedReplicas: 1, ReadyReplicas: 2}
 	}
 }
 
-func runK8sLife(steps []k8sStep, withB bool, bName string) ([]bool, error) {
+func runK8sLife(steps []k8sStep, withB bool, bName string, bGap bool) (out []bool, err error) {
+	// a panic inside a manager is not an error the coordinator can confine to one replica: it ends the process
+	defer func() {
+		if p := recover(); p != nil {
+			err = fmt.Errorf("PANIC in the Kubernetes shard manager: %v", p)
+		}
+	}()
+	return runK8sLifeInner(steps, withB, bName, bGap)
+}
+
+func runK8sLifeInner(steps []k8sStep, withB bool, bName string, bGap bool) ([]bool, error) {
 	const ns = "monitoring"
 	objs := []runtime.Object{mkSet("prom-a", steps[0].A),
 		&corev1.Pod{ObjectMeta: metav1.ObjectMeta{Name: "prom-a-0", Namespace: ns, Labels: map[string]string{"app": "prom-a"}}, Status: corev1.PodStatus{PodIP: "10.9.0.1"}}}
 	if withB {
-		objs = append(objs, mkSet(bName, steps[0].B),
+		bs := mkSet(bName, steps[0].B)
+		if bGap {
+			// the other StatefulSet has three replicas and its pod 1 is missing (evicted, not yet re-created)
+			three := int32(3)
+			bs.Spec.Replicas = &three
+			objs = append(objs, &corev1.Pod{ObjectMeta: metav1.ObjectMeta{Name: bName + "-2", Namespace: ns, Labels: map[string]string{"app": bName}}, Status: corev1.PodStatus{PodIP: "10.9.0.3"}})
+		}
+		objs = append(objs, bs,
 			&corev1.Pod{ObjectMeta: metav1.ObjectMeta{Name: bName + "-0", Namespace: ns, Labels: map[string]string{"app": bName}}, Status: corev1.PodStatus{PodIP: "10.9.0.2"}})
 	}
 	cli := fake.NewSimpleClientset(objs...)
@@ -102,8 +123,13 @@ func K8sReplicaCases(tier string) int {
 	return 400
 }
 
-// RunC19K8s runs one differential case.
-func RunC19K8s(w *core.WorkerCtx, k int) *core.CaseResult {
+// RunC19K8s runs one differential case (C19: independence of StatefulSets).
+func RunC19K8s(w *core.WorkerCtx, k int) *core.CaseResult { return runK8sLifeCase(w, k, "C19") }
+
+// RunC18K8s runs the same scripted lives and judges C18's last clause over time.
+func RunC18K8s(w *core.WorkerCtx, k int) *core.CaseResult { return runK8sLifeCase(w, k, "C18") }
+
+func runK8sLifeCase(w *core.WorkerCtx, k int, prop string) *core.CaseResult {
 	r := core.NewRng(w.Seed, 0xC19E6, uint64(k))
 	res := &core.CaseResult{Nontrivial: true}
 	n := 4 + r.Intn(8)
@@ -111,22 +137,33 @@ func RunC19K8s(w *core.WorkerCtx, k int) *core.CaseResult {
 	aState := r.PickS("ready", "notready", "notready")
 	for i := 0; i < n; i++ {
 		if r.Intn(3) == 0 {
-			aState = r.PickS("ready", "notready", "notready", "updating")
+			aState = r.PickS("ready", "notready", "notready", "updating", "updating-ready=updated", "updating-all-ready")
 		}
 		steps = append(steps, k8sStep{A: aState, B: r.PickS("ready", "notready", "updating", "updating"), Shift: r.PickI(0, 0, 45, 70, 130)})
 	}
 	// B's name sorts before or after A's
 	bName := r.PickS("prom-0b", "prom-b")
-	res.Sig = fmt.Sprintf("k8s/%v/%s", steps, bName)
-	alone, err := runK8sLife(steps, false, bName)
+	res.Sig = fmt.Sprintf("k8s/%s/%v/%s", prop, steps, bName)
+	bGap := r.Intn(3) == 0
+	alone, err := runK8sLife(steps, false, bName, false)
 	if err != nil {
 		res.Inconcl = "fake clientset: " + err.Error()
 		return res
 	}
-	with, err := runK8sLife(steps, true, bName)
+	with, err := runK8sLife(steps, true, bName, bGap)
+	if err != nil && strings.HasPrefix(err.Error(), "PANIC") {
+		if prop == "C19" {
+			res.Violate("C19/k8s/other-statefulset-crashes-the-listing", "next to %s (a pod missing: %v) listing the shards panics, which ends the coordinator for every replica: %v", bName, bGap, err)
+			res.Witness = map[string]interface{}{"steps": steps, "other": bName, "other_has_a_missing_pod": bGap}
+		}
+		return res
+	}
 	if err != nil {
 		res.Inconcl = "fake clientset: " + err.Error()
 		return res
+	}
+	if bGap {
+		res.AddStat("k8s_lives_next_to_a_statefulset_with_a_missing_pod", 1)
 	}
 	res.Execs = 2 * n
 	res.AddStat("k8s_replica_cycles_compared", int64(n))
@@ -137,7 +174,14 @@ func RunC19K8s(w *core.WorkerCtx, k int) *core.CaseResult {
 		if steps[i].A == "notready" && alone[i] {
 			res.AddStat("k8s_hand_overs_after_the_grace_period", 1)
 		}
-		if alone[i] != with[i] {
+		// C18's last clause, over time: a StatefulSet whose rolling update is in progress is not coordinated,
+		// however long the update takes
+		if prop == "C18" && strings.HasPrefix(steps[i].A, "updating") && (alone[i] || with[i]) {
+			res.Violate("C18/rolling-update-coordinated-after-a-while", "cycle %d: StatefulSet prom-a is in a rolling update (%s) and was handed to the coordinator (alone %v, next to the other %v)", i, steps[i].A, alone[i], with[i])
+			res.Witness = map[string]interface{}{"steps": steps, "alone": alone, "with_other": with}
+			break
+		}
+		if prop == "C19" && alone[i] != with[i] {
 			res.Violate("C19/k8s/handed-over-depends-on-other-statefulset", "cycle %d: StatefulSet prom-a (%s) is handed to the coordinator = %v when it is the only one, = %v next to %s (%s)", i, steps[i].A, alone[i], with[i], bName, steps[i].B)
 			res.Witness = map[string]interface{}{"steps": steps, "other": bName, "alone": alone, "with_other": with}
 			break
